@@ -145,6 +145,19 @@ def run_driver(req_path, model_path):
     return p.returncode, p.stderr
 
 
+def project(cfg, req, line):
+    """Per-property view of a response line (DESIGN §2.3: a property only looks at the classes its
+    theorems depend on). Returns None if the line is not part of this property's correspondence."""
+    for pre in cfg.get("skip_prefixes", []):
+        if req.startswith(pre):
+            return None
+    for pre, segs in cfg.get("segments", {}).items():
+        if req.startswith(pre):
+            parts = line.split(" ; ")
+            return " ; ".join(parts[i] if i < len(parts) else "<missing>" for i in segs)
+    return line
+
+
 def corr_family(pid, fam, seed, count, tag, extra_args=()):
     """run one family; returns dict(meta, disagreements[], impl_failures[])"""
     out = os.path.join(WORK, pid, f"{fam}.{tag}")
@@ -170,7 +183,10 @@ def corr_family(pid, fam, seed, count, tag, extra_args=()):
         r = reqs[i] if i < len(reqs) else ""
         a = imps[i] if i < len(imps) else "<missing>"
         b = mods[i] if i < len(mods) else "<missing>"
-        if a != b:
+        pa, pb = project(PROPS[pid], r, a), project(PROPS[pid], r, b)
+        if pa is None:
+            continue
+        if pa != pb:
             d = {"kind": "model-vs-impl", "family": fam, "seed": seed, "line": i,
                  "case": (int(cases[i]) if cases and i < len(cases) and cases[i] else None),
                  "request": r, "impl": a, "model": b}
